@@ -243,6 +243,89 @@ func c06Case(c *Ctx, id string, conf machConf, u c06Uni, ops []mOp, guardLast bo
 	return rulesKey(p)
 }
 
+// the store owns the rules added through AddPolicy / AddNamedPolicy: a caller that reuses the one
+// []string buffer it handed in must not change what is listed or what the index finds.
+func c06Aliasing(c *Ctx) {
+	mk := func() *casbin.Enforcer {
+		mm, _ := model.NewModelFromString(machRBAC.Text)
+		e, _ := casbin.NewEnforcer(mm)
+		return e
+	}
+	check := func(id string, e *casbin.Enforcer, pt string, want [][]string) {
+		var got [][]string
+		if pt == "p" {
+			got, _ = e.GetPolicy()
+		} else {
+			got, _ = e.GetGroupingPolicy()
+		}
+		if rulesKey(got) != rulesKey(want) {
+			c.Direct(id, "the caller rewrote a slice it had passed to a management call and the listed rules changed with it", fmt.Sprintf("listed=%v expected=%v", got, want))
+			return
+		}
+		for _, r := range want {
+			var has bool
+			if pt == "p" {
+				has, _ = e.HasPolicy(toIface(r)...)
+			} else {
+				has, _ = e.HasGroupingPolicy(toIface(r)...)
+			}
+			if !has {
+				c.Direct(id, "a listed rule is not found by the index after the caller rewrote a slice it had passed in", fmt.Sprintf("rule=%v listed=%v", r, got))
+			}
+		}
+	}
+	{ // one buffer, several single adds (the []string calling convention)
+		e := mk()
+		buf := []string{"alice", "data1", "read"}
+		_, _ = e.AddPolicy(buf)
+		buf[0] = "bob"
+		_, _ = e.AddPolicy(buf)
+		buf[1] = "data2"
+		_, _ = e.AddNamedPolicy("p", buf)
+		buf[2] = "zzz"
+		check("c06.alias.single", e, "p", [][]string{{"alice", "data1", "read"}, {"bob", "data1", "read"}, {"bob", "data2", "read"}})
+	}
+	// (AddNamedGroupingPolicy with one []string, the batch calls and the update calls keep the
+	// caller's slices on the unchanged tree -- only AddPolicy / AddNamedPolicy copy; recorded as
+	// observation O6 in DESIGN.md, not claimed, so only the copying entry points are checked here)
+	c.Count("aliasing")
+}
+
+// rules that differ only in which field a blank (or another separator-like byte) belongs to are
+// different rules: a batch of such rules, none listed before, is added completely -- by the plain
+// and by the Ex batch calls, for p and g -- and every one is found by HasPolicy afterwards.
+func c06BlankFields(c *Ctx) {
+	for _, sep := range []string{" ", ",", "|", "\t", ":", "] [", "$$"} {
+		if sep == "," {
+			continue // F07: the index key joins the fields with a comma
+		}
+		pb := [][]string{{"alice" + sep + "smith", "data", "read"}, {"alice", "smith" + sep + "data", "read"}, {"alice", "smith", "data" + sep + "read"}}
+		gb := [][]string{{"a" + sep + "b", "c"}, {"a", "b" + sep + "c"}}
+		for _, ex := range []bool{false, true} {
+			mm, _ := model.NewModelFromString(machRBAC.Text)
+			e, _ := casbin.NewEnforcer(mm)
+			if ex {
+				_, _ = e.AddPoliciesEx(pb)
+				_, _ = e.AddGroupingPoliciesEx(gb)
+			} else {
+				_, _ = e.AddPolicies(pb)
+				_, _ = e.AddGroupingPolicies(gb)
+			}
+			gp, _ := e.GetPolicy()
+			gg, _ := e.GetGroupingPolicy()
+			if rulesKey(gp) != rulesKey(pb) || rulesKey(gg) != rulesKey(gb) {
+				c.Direct(fmt.Sprintf("c06.blank.%q.%v", sep, ex), "a batch of distinct, unlisted rules that differ only in the field a separator-like byte belongs to was not added completely", fmt.Sprintf("batch p=%q g=%q listed p=%q g=%q", pb, gb, gp, gg))
+			}
+			for _, r := range pb {
+				if has, _ := e.HasPolicy(toIface(r)...); !has {
+					c.Direct(fmt.Sprintf("c06.blank.%q.%v", sep, ex), "a rule of the batch is not found afterwards", fmt.Sprintf("%q", r))
+				}
+			}
+			c.Count("blank-fields")
+		}
+	}
+}
+
 func init() {
 	register("C06", func(c *Ctx) {
 		c.Rule = "state-space enumeration: every reachable ordered rule list over a 4-rule universe x every operation of a ~75-op alphabet (Add/Remove/Update/RemoveFiltered, batch and Ex variants, Clear), for p2 (arity 2), p (arity 3) and g; plus seeded random histories over fields with separator-like characters (; | space quote NUL $$, no comma). Distinct = (policy type, state, op) or history; non-trivial = the history changes the listed rules at least once. Additions: targets g2 and the priority model (insertion in front of listed rules; preceded by a re-sorting load); identity and chain batch updates compared with the model outside the F08 guard; auto-save-on histories of the shared generator incl. UpdateFilteredPolicies (new rules may equal rules the filter selects); re-ordering loads (priority, subject hierarchy) followed by HasPolicy / RemovePolicy / UpdatePolicy on every slot; a cap on the number of reachable listings."
@@ -550,6 +633,8 @@ func init() {
 		c.Exhaust = false // the random part is a sample; the enumeration part is complete for its universe
 		c.Notes = append(c.Notes, "enumeration part exhaustive for the 4-rule universe (all reachable ordered lists x whole alphabet); random part seeded")
 		c06OrderingLoads(c)
+		c06Aliasing(c)
+		c06BlankFields(c)
 		c06Probes(c)
 	})
 }
